@@ -171,7 +171,7 @@ def plan(tier, seed):
     for hs in (0, 1, 4242):
         # interleave so that shards have similar cost
         for s in range(nshards):
-            specs.append(dict(worlds=ws[s::nshards], part=s, hashseed=hs, budget_s=tier_value(tier, 50, 420)))
+            specs.append(dict(worlds=ws[s::nshards], part=s, hashseed=hs, budget_s=tier_value(tier, 180, 600)))
     return specs
 
 
